@@ -169,7 +169,9 @@ class C03:
 
     def cq_step(self, st, ob):
         if st["op"] == "write":
-            s = "(SWrite %s)" % cq_list([c04mod.cq_ins(i) for i in st["ins"]])
+            # ($ROOT in a value stands for the sandbox: the model's paths are sandbox-relative)
+            rel = lambda i: dict(i, v=list(bytes(i["v"]).replace(b"$ROOT", b"")))
+            s = "(SWrite %s)" % cq_list([c04mod.cq_ins(rel(i)) for i in st["ins"]])
         elif st["op"] == "read":
             s = "(SRead %s)" % cq_list(["(%s, %s)" % (c04mod.cq_scope(p["scope"]), c04mod.cq_pairs(p["env0"])) for p in st["probes"]])
         else:
